@@ -1,6 +1,7 @@
 package commitlog
 
 import (
+	"io"
 	"os"
 	"sort"
 )
@@ -46,7 +47,11 @@ func findSegmentIndexByTimestamp(segments []*segment, timestamp int64) (int, err
 		// Read the first entry in the segment to determine the base timestamp.
 		var entry entry
 		if e := segments[i].Index.ReadEntryAtLogOffset(&entry, 0); e != nil {
-			err = e
+			// An empty segment, i.e. the active segment right after a roll,
+			// has no base timestamp. It sorts after every other segment.
+			if e != io.EOF {
+				err = e
+			}
 			return true
 		}
 		return entry.Timestamp > timestamp
